@@ -660,6 +660,10 @@ def _preempt_case(item):
         r = getattr(einx, fn)(desc, x, **kw)
         return ("ok", np.asarray(r))
 
+    def call2(fn, desc, x, y, **kw):
+        r = getattr(einx, fn)(desc, x, y, **kw)
+        return ("ok", np.asarray(r))
+
     if kind in ("exit_during_call", "enter_during_call"):
         # a with-block is already open (or is opened) while the call of another thread is under way
         x = np.arange(12, dtype=np.float64).reshape(3, 4) + k
@@ -751,6 +755,36 @@ def _preempt_case(item):
                 out.append(({"kind": "first_time_call_fails_next_to_another", "exc": r[1] if r[0] == "exc" else "wrong value", "who": who},
                             {"stopped_before": list(pause), "call": f"einx.sum('{c[0]}', array of shape {c[1].shape}, b={c[2]['b']})", "detail": str(r)[:400]}))
         return n, out
+    if kind == "first_time_factory_calls_every_line":
+        # the same with a tensor factory that asks for the call's signature: each thread's factory is told about its own call
+        n1, n2 = 2 + 2 * k, 3 + 2 * k
+        x, y = np.arange(n1 * 3, dtype=np.int64).reshape(n1, 3), np.arange(n2 * 4 * 5, dtype=np.int64).reshape(n2, 4, 5) + 1
+        seen = {"1": [], "2": []}
+
+        def fac(tag, val):
+            def factory(shape, signature=None):
+                seen[tag].append(", ".join(str(e) for e in getattr(signature, "exprs_in", ())) if signature is not None else "None")
+                return np.full(shape, val, dtype=np.int64)
+            return factory
+        c1 = ("a b, b", x, fac("1", 7), x + 7)
+        c2 = ("c d e, d", y, fac("2", 9), y + 9)
+        ra, rb, n = single_preemption(lambda: call2("add", c2[0], c2[1], c2[2]), lambda: call2("add", c1[0], c1[1], c1[2]), None, ("",), pause_line=tuple(pause))
+        later = []
+        for c in (c2, c1):
+            try:
+                later.append(call2("add", c[0], c[1], c[2]))
+            except BaseException as e:  # noqa: BLE001
+                later.append(("exc", common.classify_exc(e), common.exc_site(e), str(e)[:300]))
+        for who, r, c in (("stopped thread", rb, c1), ("other thread", ra, c2), ("repeat afterwards", later[0], c2), ("repeat afterwards", later[1], c1)):
+            if r[0] != "ok" or r[1].shape != c[3].shape or not np.array_equal(r[1], c[3]):
+                out.append(({"kind": "first_time_call_fails_next_to_another", "exc": r[1] if r[0] == "exc" else "wrong value", "who": who, "with": "factory"},
+                            {"stopped_before": list(pause), "call": f"einx.add('{c[0]}', array, factory)", "detail": str(r)[:400]}))
+        for tag, desc in (("1", c1[0]), ("2", c2[0])):
+            first = desc.split(",")[0].strip()
+            if any(first not in s for s in seen[tag]):
+                out.append(({"kind": "factory_told_about_another_threads_call", "with": "factory"},
+                            {"stopped_before": list(pause), "call": f"einx.add('{desc}', array, factory)", "signature_seen": seen[tag][:4]}))
+        return n, out
     # two first-time calls whose descriptions contain several anonymous axes, stopped inside the parser
     n1, n2 = 2 + k, 20000 + k                                  # fresh shapes (k is unique per schedule): both calls are traced anew
     x, y = np.arange(n1, dtype=np.int64), np.arange(n2, dtype=np.int64)
@@ -772,7 +806,7 @@ def _preempt_case(item):
     return n, out
 
 
-def distinct_lines_of_first_time_call(all_occurrences=False):
+def distinct_lines_of_first_time_call(all_occurrences=False, with_factory=False):
     """every (file, line) of einx that a first-time einx.sum call (with a flattened axis and a transposed output) executes, in order of first execution"""
     import einx
     src = common.REPO.rstrip("/") + "/einx/"
@@ -788,10 +822,14 @@ def distinct_lines_of_first_time_call(all_occurrences=False):
 
     def glob(frame, event, arg):
         return local if event == "call" and frame.f_code.co_filename.startswith(src) else None
-    einx.sum("a (b c) -> c b", np.ones((3, 6)), b=2)          # imports, first-use initialisation
+    def probe(n):
+        if with_factory:
+            return einx.add("a b, b", np.ones((n, 3)), lambda shape, signature=None: np.ones(shape))
+        return einx.sum("a (b c) -> c b", np.arange(n * 6).reshape(n, 6), b=2)
+    probe(3)                                                   # imports, first-use initialisation
     sys.settrace(glob)
     try:
-        einx.sum("a (b c) -> c b", np.arange(77 * 6).reshape(77, 6), b=2)
+        probe(77)
     finally:
         sys.settrace(None)
     # before the first execution of every line, and before the last one of every line that runs several times (the outermost
@@ -830,6 +868,14 @@ def run_preemption_mode(ctx):
     stats["preemption_points_first_time_calls_every_line"] = len(every)
     for fl in every:
         items.append(("first_time_calls_every_line", k, fl))
+        k += 1
+    flines = distinct_lines_of_first_time_call(all_occurrences=False, with_factory=True)
+    if quick:
+        # quick tier: the lines of the files that hand the call over to the factory; thorough tier: every line
+        flines = [fl for fl in flines if fl[0].endswith(("namedtensor_calltensorfactory.py", "frontend/api.py", "util/lru_cache.py"))]
+    stats["preemption_points_first_time_factory_calls_every_line"] = len(flines)
+    for fl in flines:
+        items.append(("first_time_factory_calls_every_line", k, fl))
         k += 1
     res = common.pmap(_preempt_case, items, procs=8)
     for it, (n, viol) in zip(items, res):
